@@ -1,5 +1,6 @@
 import ShkModel.Model.Spot
 import ShkModel.Driver.Aud
+import ShkModel.Model.Collect
 namespace Shk.Drv.C08
 open Shk Shk.Aud Shk.Spot Shk.Drv.Aud
 
@@ -60,7 +61,11 @@ def pipelineReq : P String := do
       (r.1, acc.2.1 ++ r.2.map (fun e => Ev.sig (match e.stamp with | .now => now | .at q => q) e.samples),
        acc.2.2 + 1)) (([] : Lasts), ([] : List Ev), 0)
   let s := run c evs tEnd
-  pure ("abort=" ++ showAbort s.abort ++ " | " ++ " | ".intercalate (s.out.reverse.map showOut) ++ " || ")
+  let rows := Shk.Collect.collectAll c s.out.reverse
+  let rowsTxt := rows.filter (fun r => r.actor != "") |>.map fun r =>
+    s!"{hex r.observer}:{hex r.actor}:{hex r.sig}:{showRat r.ts}:{showVal r.val}"
+  pure ("abort=" ++ showAbort s.abort ++ " | " ++ " | ".intercalate (s.out.reverse.map showOut) ++ " || " ++
+        "rows=" ++ showList rowsTxt)
 
 def handle : List String → String
   | "points" :: rest =>
